@@ -338,3 +338,220 @@ Proof.
   intros H. destruct (match_chunk_top_spec chunk s) as [(ops & Hops & _)|(_ & E)]; [|exact E].
   exfalso. exact (H ops Hops).
 Qed.
+
+(* ---- scanChunk --------------------------------------------------------------------------- *)
+Lemma scan_len_ge : forall n p, length p <= n -> forall b i, i <= scan_len Linux p b i.
+Proof.
+  induction n as [|n IH]; intros p Hp b i.
+  - destruct p; [cbn; lia|cbn in Hp; lia].
+  - destruct p as [|c p']; [cbn; lia|]. cbn [length] in Hp. cbn [scan_len].
+    destruct (N.eqb c BSLASH).
+    + destruct p' as [|d p'']; [lia|]. cbn [length] in Hp.
+      assert (H := IH p'' ltac:(lia) b (S (S i))). lia.
+    + destruct (N.eqb c LBRACK); [assert (H := IH p' ltac:(lia) true (S i)); lia|].
+      destruct (N.eqb c RBRACK); [assert (H := IH p' ltac:(lia) false (S i)); lia|].
+      destruct (N.eqb c STAR).
+      * destruct b; [assert (H := IH p' ltac:(lia) true (S i)); lia|lia].
+      * assert (H := IH p' ltac:(lia) b (S i)); lia.
+Qed.
+
+Lemma scan_len_pos c p : c <> STAR -> 1 <= scan_len Linux (c :: p) false 0.
+Proof.
+  intros Hc. cbn [scan_len]. apply N.eqb_neq in Hc. rewrite Hc.
+  destruct (N.eqb c BSLASH).
+  - destruct p as [|d p']; [lia|]. assert (H := @scan_len_ge _ p' (le_n _) false 2). lia.
+  - destruct (N.eqb c LBRACK); [assert (H := @scan_len_ge _ p (le_n _) true 1); lia|].
+    destruct (N.eqb c RBRACK); assert (H := @scan_len_ge _ p (le_n _) false 1); lia.
+Qed.
+
+Lemma strip_stars_spec p :
+  let q := snd (strip_stars p) in
+  length q <= length p /\ (q = [] \/ exists c q', q = c :: q' /\ c <> STAR).
+Proof.
+  induction p as [|c p IH]; cbn [strip_stars]; [cbn; auto|].
+  destruct (N.eqb c STAR) eqn:E; cbn [snd].
+  - cbv zeta in IH. destruct IH as (H1 & H2). split; [cbn [length]; lia|exact H2].
+  - split; [lia|]. right. exists c, p. apply N.eqb_neq in E. auto.
+Qed.
+
+Lemma scan_chunk_facts pattern star chunk rest :
+  pattern <> [] -> scan_chunk Linux pattern = (star, chunk, rest) ->
+  length rest < length pattern /\ (chunk = [] -> rest = []).
+Proof.
+  intros Hne. unfold scan_chunk. intros [= _ <- <-].
+  destruct (strip_stars_spec pattern) as (Hl & Hq). set (q := snd (strip_stars pattern)) in *.
+  assert (Hp : 1 <= length pattern) by (destruct pattern; [congruence|cbn [length]; lia]).
+  destruct Hq as [->|(c & q' & -> & Hc)].
+  - rewrite skipn_nil. cbn [length]. split; [lia|reflexivity].
+  - pose proof (scan_len_pos q' Hc) as Hpos. set (i := scan_len Linux (c :: q') false 0) in *.
+    split.
+    + rewrite skipn_length. cbn [length] in *. lia.
+    + destruct i; [lia|]. cbn [firstn]. discriminate.
+Qed.
+
+(* ---- the search for the start of a chunk ------------------------------------------------- *)
+Definition acc (last : bool) (t : str) : bool := isnil t || negb last.
+
+Definition try_here (ops : list op) (last : bool) (name : str) : option str :=
+  match ops_run ops name with Some t => if acc last t then Some t else None | None => None end.
+
+(* leftmost start, skipping non-separator bytes only *)
+Fixpoint find_first (ops : list op) (last : bool) (name : str) : option str :=
+  match try_here ops last name with
+  | Some t => Some t
+  | None => match name with
+            | [] => None
+            | c :: name' => if N.eqb c SLASH then None else find_first ops last name'
+            end
+  end.
+
+Definition skip1 (ops : list op) (last : bool) (name : str) : option str :=
+  match name with [] => None | c :: name' => if N.eqb c SLASH then None else find_first ops last name' end.
+
+Lemma find_first_unfold ops last name :
+  find_first ops last name = match try_here ops last name with Some t => Some t | None => skip1 ops last name end.
+Proof. destruct name; reflexivity. Qed.
+
+Definition search (star : bool) (ops : list op) (last : bool) (name : str) : option str :=
+  if star then find_first ops last name else try_here ops last name.
+
+Lemma star_loop_spec chunk ops pe :
+  chunk_parses chunk ops -> forall name, star_loop Linux chunk pe name = MVal (skip1 ops pe name).
+Proof.
+  intros Hc. induction name as [|c name IH]; [reflexivity|].
+  cbn [star_loop skip1]. change (sepc Linux) with SLASH. destruct (N.eqb c SLASH); [reflexivity|].
+  rewrite (match_chunk_top_parses _ Hc), IH, find_first_unfold. unfold try_here, acc.
+  destruct (ops_run ops name) as [t|]; [|reflexivity]. destruct pe, t; reflexivity.
+Qed.
+
+Lemma find_first_nil name : find_first [] true name = if contains_byte SLASH name then None else Some [].
+Proof.
+  induction name as [|c name IH]; [reflexivity|]. rewrite find_first_unfold.
+  unfold try_here, acc. cbn [ops_run skip1 contains_byte existsb orb negb].
+  rewrite (N.eqb_sym SLASH c). destruct (N.eqb c SLASH); [reflexivity|]. exact IH.
+Qed.
+
+(* ---- one iteration of Match ---------------------------------------------------------------- *)
+Definition no_match (cr : bool) (rest : str) : mres bool :=
+  if cr && negb (rest_ok Linux (S (length rest)) rest) then MBad else MVal false.
+
+Lemma match_loop_step cr f pattern name star chunk rest ops :
+  pattern <> [] -> scan_chunk Linux pattern = (star, chunk, rest) -> chunk_parses chunk ops -> 1 <= f ->
+  match_loop Linux cr (S f) pattern name =
+  match search star ops (isnil rest) name with
+  | Some t => match_loop Linux cr f rest t
+  | None => no_match cr rest
+  end.
+Proof.
+  intros Hne Hs Hc Hf. destruct pattern as [|p0 p']; [congruence|]. cbn [match_loop]. rewrite Hs.
+  destruct (scan_chunk_facts Hne Hs) as (_ & Hnil).
+  destruct (star && isnil chunk) eqn:Esp.
+  - (* trailing star *)
+    apply andb_prop in Esp as [-> Ech]. destruct chunk; [|discriminate]. rewrite (Hnil eq_refl).
+    inversion Hc; subst. cbn [search]. rewrite find_first_nil. change (sepc Linux) with SLASH.
+    destruct (contains_byte SLASH name); cbn [negb].
+    + unfold no_match. cbn. rewrite andb_false_r. reflexivity.
+    + destruct f; [lia|]. reflexivity.
+  - rewrite (match_chunk_top_parses _ Hc). fold (no_match cr rest).
+    unfold search. rewrite find_first_unfold. unfold try_here. fold (acc (isnil rest) ).
+    destruct (ops_run ops name) as [t|].
+    + fold (acc (isnil rest) t). destruct (acc (isnil rest) t); [destruct star; reflexivity|].
+      destruct star; [|reflexivity]. rewrite (star_loop_spec _ Hc). destruct (skip1 ops (isnil rest) name); reflexivity.
+    + destruct star; [|reflexivity]. rewrite (star_loop_spec _ Hc). destruct (skip1 ops (isnil rest) name); reflexivity.
+Qed.
+
+Lemma match_loop_bad cr f pattern name star chunk rest :
+  pattern <> [] -> scan_chunk Linux pattern = (star, chunk, rest) -> (forall ops, ~ chunk_parses chunk ops) ->
+  match_loop Linux cr (S f) pattern name = MBad.
+Proof.
+  intros Hne Hs Hc. destruct pattern as [|p0 p']; [congruence|]. cbn [match_loop]. rewrite Hs.
+  assert (Hch : isnil chunk = false) by (destruct chunk; [exfalso; apply (Hc []); constructor|reflexivity]).
+  rewrite Hch, andb_false_r. rewrite (match_chunk_top_bad _ Hc). reflexivity.
+Qed.
+
+(* every chunk either parses or not *)
+Lemma chunk_parses_dec chunk : (exists ops, chunk_parses chunk ops) \/ (forall ops, ~ chunk_parses chunk ops).
+Proof. destruct (match_chunk_top_spec chunk []) as [(ops & H & _)|(H & _)]; eauto. Qed.
+
+(* ---- parsed patterns ------------------------------------------------------------------------- *)
+Definition pchunk : Type := (bool * list op)%type.
+
+Inductive pat_parses : str -> list pchunk -> Prop :=
+| PP_nil : pat_parses [] []
+| PP_cons pattern star chunk rest ops cks :
+    pattern <> [] -> scan_chunk Linux pattern = (star, chunk, rest) ->
+    chunk_parses chunk ops -> pat_parses rest cks -> pat_parses pattern ((star, ops) :: cks).
+
+(* the leftmost matcher, executable, on parsed patterns *)
+Fixpoint gmatch (cks : list pchunk) (name : str) : bool :=
+  match cks with
+  | [] => isnil name
+  | (star, ops) :: rest =>
+      match search star ops (isnil rest) name with
+      | Some t => gmatch rest t
+      | None => false
+      end
+  end.
+
+Lemma pat_parses_nil rest cks : pat_parses rest cks -> isnil cks = isnil rest.
+Proof. intros H. destruct H as [|pattern ? ? ? ? ? Hne]; [reflexivity|]. destruct pattern; [congruence|reflexivity]. Qed.
+
+Lemma rest_ok_parses : forall fuel rest cks, pat_parses rest cks -> length rest < fuel -> rest_ok Linux fuel rest = true.
+Proof.
+  induction fuel as [|f IH]; intros rest cks H Hf; [reflexivity|].
+  destruct H as [|pattern star chunk rest ops cks Hne Hs Hc Hr]; [reflexivity|].
+  destruct (scan_chunk_facts Hne Hs) as (Hl & _).
+  destruct pattern as [|p0 p']; [congruence|]. cbn [rest_ok]. rewrite Hs.
+  rewrite (match_chunk_top_parses _ Hc). apply (IH _ _ Hr). lia.
+Qed.
+
+Lemma rest_ok_sound : forall fuel rest, length rest < fuel -> rest_ok Linux fuel rest = true -> exists cks, pat_parses rest cks.
+Proof.
+  induction fuel as [|f IH]; intros rest Hf H; [lia|].
+  destruct rest as [|p0 p']; [exists []; constructor|]. cbn [rest_ok] in H.
+  destruct (scan_chunk Linux (p0 :: p')) as [[star chunk] rest] eqn:Hs.
+  assert (Hne : p0 :: p' <> []) by discriminate.
+  destruct (scan_chunk_facts Hne Hs) as (Hl & _).
+  destruct (match_chunk_top_spec chunk []) as [(ops & Hc & E)|(_ & E)]; rewrite E in H; [|discriminate].
+  destruct (IH rest ltac:(lia) H) as (cks & Hcks). exists ((star, ops) :: cks). econstructor; eauto.
+Qed.
+
+(* a pattern that parses: Match answers as the leftmost matcher does, whatever
+   the flag and the (sufficient) fuel *)
+Theorem match_loop_parses cr : forall fuel pattern cks name,
+  pat_parses pattern cks -> length pattern < fuel ->
+  match_loop Linux cr fuel pattern name = MVal (gmatch cks name).
+Proof.
+  induction fuel as [|f IH]; intros pattern cks name H Hf; [lia|].
+  destruct H as [|pattern star chunk rest ops cks Hne Hs Hc Hr]; [reflexivity|].
+  destruct (scan_chunk_facts Hne Hs) as (Hl & _).
+  rewrite (match_loop_step cr name Hne Hs Hc) by (destruct pattern; [congruence|cbn [length] in Hf; lia]).
+  cbn [gmatch]. rewrite (pat_parses_nil Hr).
+  destruct (search star ops (isnil rest) name) as [t|].
+  - apply IH; [exact Hr|lia].
+  - unfold no_match. rewrite (rest_ok_parses Hr) by lia. rewrite andb_false_r. reflexivity.
+Qed.
+
+(* a value other than "false under check_rest = false" can only come from a pattern that parses *)
+Theorem match_loop_val cr : forall fuel pattern name b,
+  length pattern < fuel -> match_loop Linux cr fuel pattern name = MVal b -> cr = true \/ b = true ->
+  exists cks, pat_parses pattern cks /\ gmatch cks name = b.
+Proof.
+  induction fuel as [|f IH]; intros pattern name b Hf H Hcb; [lia|].
+  destruct pattern as [|p0 p'].
+  { exists []. split; [constructor|]. cbn in H. injection H as <-. reflexivity. }
+  assert (Hne : p0 :: p' <> []) by discriminate.
+  destruct (scan_chunk Linux (p0 :: p')) as [[star chunk] rest] eqn:Hs.
+  destruct (scan_chunk_facts Hne Hs) as (Hl & _).
+  destruct (chunk_parses_dec chunk) as [(ops & Hc)|Hbad].
+  2:{ rewrite (match_loop_bad cr f name Hne Hs Hbad) in H. discriminate. }
+  rewrite (match_loop_step cr name Hne Hs Hc) in H by (cbn [length] in Hf; lia).
+  destruct (search star ops (isnil rest) name) as [t|] eqn:Es.
+  - destruct (IH rest t b ltac:(lia) H Hcb) as (cks & Hp & Hg). exists ((star, ops) :: cks).
+    split; [econstructor; eauto|]. cbn [gmatch]. rewrite (pat_parses_nil Hp), Es. exact Hg.
+  - unfold no_match in H. destruct cr; cbn [andb] in H.
+    + destruct (rest_ok Linux (S (length rest)) rest) eqn:Er; [|discriminate]. injection H as <-.
+      destruct (@rest_ok_sound (S (length rest)) rest ltac:(lia) Er) as (cks & Hp).
+      exists ((star, ops) :: cks). split; [econstructor; eauto|]. cbn [gmatch]. rewrite (pat_parses_nil Hp), Es. reflexivity.
+    + injection H as <-. destruct Hcb; discriminate.
+Qed.
